@@ -570,7 +570,9 @@ def run_suite(files: dict, suite_name: str):
         rc = mp.execute(['suite', os.path.join(case_dir, suite_name)], StdOutputFiles(out, err))
     except Exception as e:  # noqa
         rc, exc = None, e
+    cwd_after = os.getcwd()
     os.chdir(cwd)
+    sandboxes_left = [os.path.isdir(r) and len(os.listdir(r)) > 0 for r in roots]
     scratch.remove(work)
     statuses = {}
     for line in (out.value() + err.value()).split('\n'):
@@ -578,7 +580,7 @@ def run_suite(files: dict, suite_name: str):
         if len(parts) >= 3 and parts[0] == 'case':
             statuses[os.path.basename(parts[1].rstrip(':'))] = parts[-1]
     return dict(rc=rc, exc=exc, statuses=statuses, sandboxes=len(roots), process_starts=len(_SubprocessStub.calls),
-                stdout=out.value(), stderr=err.value())
+                stdout=out.value(), stderr=err.value(), sandboxes_left=sandboxes_left, cwd_restored=(cwd_after == cwd))
 
 
 def suite_files(defect, layout) -> dict:
